@@ -913,7 +913,16 @@ def table_lookup(table, x):
 # =============================================================================================
 
 class SymNegInt(object):
-    """a negative (or non-representable) integer result; only (in)equality with ints is modelled"""
+    """a negative (or non-representable) integer result; only (in)equality with ints is modelled.
+    mag: magnitude (int / SymInt) when known (e.g. -max(9, wbits) passed to zlib)"""
+
+    def __init__(self, mag=None):
+        self.mag = mag
+
+    def __neg__(self):
+        if self.mag is None:
+            raise EngineLimit('negation of an unknown negative')
+        return self.mag
 
     def __eq__(self, o):
         if isinstance(o, _int) and o >= 0:
